@@ -50,8 +50,9 @@ TEXT["C03"] = dict(
         "_partial under the ratio hypothesis, with a kernel-checked witness that is replayed on the implementation "
         "(known finding D2). Tied to the code by differential execution of framing decisions, selector support, "
         "acceptance outcomes, sparse encoding (byte for byte) and decoding, and by a round-trip / never-expands oracle over all selectors."),
-  note=("third-party codecs are parameters (round trip sampled, not proved); ADPCM is observed only. Known findings D2 (ratio limits reject own output) and D25 (PKWare output undecodable); one "
-        "defect repaired (PKWare ASCII-mode panic)."),
+  note=("third-party codecs are parameters (round trip sampled, not proved); ADPCM is observed only. Known findings D2 (ratio limits reject own output) and D25 (PKWare output undecodable); two "
+        "defects repaired (PKWare ASCII-mode panic; ADPCM+BZip2 blocks rejected on read because the intermediate stage was "
+        "held to an exact size)."),
   technique="Lean 4 proof (arithmetic closed form, sparse codec round trip by induction over the compressor's scan) + differential correspondence + round-trip oracle")
 TEXT["C08"] = dict(
   text=("Machine-checked Lean 4 theorems: after every history of add / remove / set-priority / clear the chain is ordered "
@@ -116,23 +117,34 @@ TEXT["C19"] = dict(
         "are errors and no-ops; closing an archive removes exactly its own file and search handles; and the lock "
         "acquisition graph re-extracted from the source on every run is acyclic (kernel-decided). Tied to the code by "
         "stateful differential execution of call histories with live/stale/null/forged handles and canary-fenced buffers, "
-        "agreement of bytes/sizes/existence with the Rust API, and multi-threaded stress under a watchdog."),
-  note=("PARTIAL: unsafe pointer writes and thread interleavings are observed, not proved; lock graph is lexical. Three "
-        "defects repaired (search handles survived SFileCloseArchive; names > MAX_PATH overran caller buffers; "
-        "SFileVerifyArchive self-deadlocked)."),
+        "agreement of bytes/sizes/existence with the Rust API on read-only and on writable archives (before and after flush), handles forged in the high 32 bits, and multi-threaded stress under a watchdog."),
+  note=("PARTIAL: unsafe pointer writes and thread interleavings are observed, not proved; lock graph is lexical; writable "
+        "archives (SFileCreateArchive2, add/remove/rename/flush/compact) are covered by histories compared with a "
+        "name -> bytes map and with the Rust reader, not by the handle-table theorems. Five defects repaired (search "
+        "handles survived SFileCloseArchive; names > MAX_PATH overran caller buffers; SFileVerifyArchive self-deadlocked; "
+        "SFileHasFile answered from the stale read-only view of a writable archive; SFileAddFileEx replaced an existing "
+        "file without MPQ_FILE_REPLACEEXISTING)."),
   technique="Lean 4 proof (invariant by induction over call sequences, kernel-decided lock-graph acyclicity) + stateful differential correspondence + watchdog stress")
 TEXT["C01"] = dict(
-  text=("Machine-checked Lean 4 carrier theorems about an MPQ reader/writer model, one per mechanism the property names: "
-        "insertion probing mirrors lookup probing (first free slot of a duplicate-free probe order is found again); every "
-        "spelling of a name finds the same block and derives the same key (from C04's fold invariance); encryption inverts "
-        "under both tail conventions; sector splitting partitions the file; the raw-vs-compressed decision is recovered "
-        "from sizes alone; table encryption inverts. The model is tied to the code BOTH WAYS on real archive bytes: the Lean "
-        "reader reads what the Rust builder wrote across the configuration product, the Rust reader reads what the Lean "
-        "writer wrote, plus the property oracle (every spelling, never-added names, listing, sizes) on the implementation."),
-  note=("PARTIAL: whole-archive composition not proved as one theorem; codecs are a table; HET/BET not modelled. Two defects "
-        "repaired (all-raw multi-sector files read back with their offset table / garbage when encrypted; failed sector "
-        "decompression became zeros); known finding D2 (ratio limits reject own output) shared with C03."),
-  technique="Lean 4 proof (open-addressing, cipher and layout lemmas) + two-way differential correspondence on real archive bytes")
+  text=("Machine-checked Lean 4 theorems about an MPQ reader/writer model. WHOLE ARCHIVE: for every file set with pairwise "
+        "different name-hash pairs that fits the hash table, every layout the writer chooses (single unit, plain sectors, "
+        "sectors behind an offset table), every encryption mode (none, name key, position-adjusted key) and every stored "
+        "form of every unit the codec table maps back, reading the i-th name from the written archive returns the i-th "
+        "content (archive_roundtrip), under every spelling that differs in ASCII case or slash direction "
+        "(archive_roundtrip_spelling), and a name whose hash pair differs from every added name's is reported not found "
+        "(archive_absent); header V1/V2, archive below 4 GiB. Proved by an insertion invariant over the builder's whole "
+        "hash-table loop, a byte-level account of header, placement and both encrypted tables, and one lemma per layout. "
+        "Below it the carrier theorems (probing mirror, spelling invariance, cipher inversion, sector partition, store-raw "
+        "rule, table encryption). The model is tied to the code BOTH WAYS on real archive bytes: the Lean reader reads what "
+        "the Rust builder wrote across the configuration product, the Rust reader reads what the Lean writer wrote, plus the "
+        "property oracle (every spelling, never-added names, listing, sizes) on the implementation."),
+  note=("PARTIAL: codecs are a table (sparse is proved in C03); V3/V4 headers and HET/BET are covered by the correspondence "
+        "and the oracle, not by the theorem. Two defects repaired (all-raw multi-sector files read back with their offset "
+        "table / garbage when encrypted; failed sector decompression became zeros); known finding D2 (ratio limits reject "
+        "own output) shared with C03. Observation: the builder fills the BET name-hash array with a different Jenkins "
+        "variant than the reader checks, so V3/V4 lookups always fall through to the classic tables (not observable on "
+        "builder-made archives, which always carry them)."),
+  technique="Lean 4 proof (whole-archive write/read composition by invariant + byte-level layout lemmas; cipher and probing lemmas) + two-way differential correspondence on real archive bytes")
 TEXT["C02"] = dict(
   text=("An independent reference implementation (Lean model of the published layout, probing, key derivation and cipher "
         "with Spec constants; CPython zlib/bz2 as codecs) is run against the library in both directions on real archive "
@@ -179,13 +191,13 @@ TEXT["C14"] = dict(
 
 TEXT["C15"] = dict(
     text="Machine-checked Lean 4 theorems about the derived data of WMO files: in a table of NUL-terminated strings the offset recorded for entry i addresses exactly string i, for every list of NUL-free strings incl. shared prefixes, repeats and empty names (stringAt_nameOffsets); the MOVV/MOVB encoding of visibility lists decodes to the same lists for every list of lists, empty lists in any position, as long as no entry equals the terminator 0xFFFF (decodeVis_encode); a chunk of n records of k bytes yields the count n. Tied to the code by recomputing MOHD counts from the chunk sizes of every written root, resolving the written MOGI offsets against MOGN and decoding the written MOVV/MOVB with the model, an independent framing walk, and write->parse->write / conversion content oracles; group files through framing and element counts.",
-    note="Partial: group content cannot be parsed back by the crate (no reader for the writer's WmoGroup), liquids/BSP not generated. One genuine defect fix in /repo (MOMT/MLIQ declared sizes, MOGI name offsets); one known finding (D39: doodad model names are not representable in WmoRoot, name offsets are renumbered on write).",
+    note="Partial: the group writer's output is not readable by the crate's group reader (two different layouts: known finding D53), so group content is checked at the framing level only; liquids/BSP not generated. One genuine defect fix in /repo (MOMT/MLIQ declared sizes, MOGI name offsets); one known finding (D39: doodad model names are not representable in WmoRoot, name offsets are renumbered on write).",
     technique="Lean 4 proof (induction over string tables and run-length lists with arbitrary prefix) + differential correspondence on written files + round-trip oracles",
 )
 
 TEXT["C13"] = dict(
     text="Machine-checked Lean 4 theorems about the offset relocation scheme M2Model::write uses for preserved key-frame data in all ten animated sections: for every list of blobs in which equal original offsets carry equal bytes, every original offset is mapped and the written data section holds exactly that blob at the mapped offset, whether written for this track or shared with an earlier one (relocate_reads); equal original offsets get equal new offsets (relocate_alias); nothing is written twice (emit_bounded). No bound on the number of tracks or sizes. Tied to the code by comparing the model's relocated offsets with those found in written files for bones with shared and own time lines, and by write->parse->write / conversion content oracles for models (key frames read through the file's (count, offset) pairs) and for skins in both layouts.",
-    note="Partial: only part of the model sections is generated (no textures, cameras, lights, emitters, rotations, anim files); whole-model content preservation is the oracle's part. One defect repaired in /repo (skin submesh record size 40 vs 48); one known finding (D40: tiny old-layout skins are taken for the versioned layout).",
+    note="Partial: bones (translation/scale), vertices, textures with names, materials, transparency, events with ranges, attachments and cameras are generated; lights, emitters, colour/texture animations, bone rotations and anim files are not; whole-model content preservation is the oracle's part, the relocation theorems are tied to the bone, event, attachment and camera sections. Three defects repaired in /repo (skin submesh record size 40 vs 48; texture file-name references patched into other sections' bytes; event ranges not relocated); one known finding (D40: tiny old-layout skins are taken for the versioned layout).",
     technique="Lean 4 proof (invariant over the first-occurrence relocation map and the emitted data, by induction over the blob list) + differential correspondence on relocated offsets + round-trip/conversion oracles",
 )
 
